@@ -155,12 +155,35 @@ func scanFile(pkg *packages.Package, f *ast.File, rel string, ranges, muts *[]si
 				}
 			case *ast.IndexExpr:
 				return denotesModelMem(x.X)
+			case *ast.SliceExpr:
+				// a re-slice shares the backing array
+				return denotesModelMem(x.X)
 			case *ast.Ident:
 				if o := info.ObjectOf(x); o != nil && alias[o] {
 					return true
 				}
 			case *ast.ParenExpr:
 				return denotesModelMem(x.X)
+			}
+			return false
+		}
+		// x := <model slice>[a:b]  (the "filter without allocating" idiom): appending to x overwrites the model's array
+		reslice := map[types.Object]bool{}
+		isReslice := func(e ast.Expr) bool {
+			for {
+				if p, ok := e.(*ast.ParenExpr); ok {
+					e = p.X
+					continue
+				}
+				break
+			}
+			if se, ok := e.(*ast.SliceExpr); ok {
+				return denotesModelMem(se.X)
+			}
+			if id, ok := e.(*ast.Ident); ok {
+				if o := info.ObjectOf(id); o != nil && reslice[o] {
+					return true
+				}
 			}
 			return false
 		}
@@ -185,6 +208,11 @@ func scanFile(pkg *packages.Package, f *ast.File, rel string, ranges, muts *[]si
 						if denotesModelMem(as.Rhs[i]) {
 							if o := info.ObjectOf(id); o != nil {
 								alias[o] = true
+							}
+						}
+						if isReslice(as.Rhs[i]) {
+							if o := info.ObjectOf(id); o != nil {
+								reslice[o] = true
 							}
 						}
 					}
@@ -255,6 +283,11 @@ func scanFile(pkg *packages.Package, f *ast.File, rel string, ranges, muts *[]si
 						case "delete", "clear", "copy":
 							if denotesModelMem(s.Args[0]) {
 								add(muts, s, "builtin "+id.Name, s.Args[0])
+							}
+						case "append":
+							// append to a re-slice of a model slice writes into the model's backing array
+							if isReslice(s.Args[0]) {
+								add(muts, s, "append-to-reslice", s.Args[0])
 							}
 						}
 					}
